@@ -112,3 +112,307 @@ pub fn spec_last_counter(heights: &[u32]) -> u64 {
         ((1u128 << t) - 1) as u64
     }
 }
+
+// ---------------------------------------------------------------- RFC 8554 LM-OTS arithmetic (executable spec)
+/// RFC 8554 section 3.1.3: coef(S, i, w) = (2^w - 1) AND ( byte(S, floor(i * w / 8)) >> (8 - (w * (i % (8 / w)) + w)) )
+pub fn spec_coef(s: &[u8], i: u32, w: u32) -> u32 {
+    let byte = s[((i * w) / 8) as usize] as u32;
+    ((1u32 << w) - 1) & (byte >> (8 - (w * (i % (8 / w)) + w)))
+}
+
+fn spec_floor_lg(mut x: u32) -> u32 {
+    let mut r = 0;
+    while x > 1 {
+        x /= 2;
+        r += 1;
+    }
+    r
+}
+
+/// RFC 8554 Appendix B: u = ceil(8n/w), v = ceil((floor(lg((2^w - 1) * u)) + 1) / w), ls = 16 - (v * w), p = u + v
+pub fn spec_appendix_b(n: u32, w: u32) -> (u32, u32, u32, u32) {
+    let u = (8 * n + w - 1) / w;
+    let v = (spec_floor_lg(((1u32 << w) - 1) * u) + 1 + w - 1) / w;
+    let ls = 16 - v * w;
+    (u, v, ls, u + v)
+}
+
+/// RFC 8554 section 4.4 Algorithm 2 with an explicit left shift: Cksm(S) = (sum_{i<u} (2^w - 1 - coef(S,i,w))) << ls
+pub fn spec_cksm(s: &[u8], n: u32, w: u32, ls: u32) -> u16 {
+    let mut sum: u32 = 0;
+    let mut i = 0;
+    let u = (n * 8) / w;
+    while i < u {
+        sum += ((1u32 << w) - 1) - spec_coef(s, i, w);
+        i += 1;
+    }
+    (sum << ls) as u16
+}
+
+// ---------------------------------------------------------------- recording hash (DESIGN 2.3)
+// A HashChain implementation whose every finalisation logs the absorbed pre-image and returns a FRESH unconstrained
+// value. Contracts are stated over the log (number of calls, exact pre-image bytes of call k, where output k flows), so
+// they hold for every hash function. The crate forbids unsafe code, hence atomics for the log.
+use core::sync::atomic::{AtomicU8, AtomicUsize, Ordering};
+use digest::{typenum::U32, FixedOutput, Output, OutputSizeUser, Update};
+
+pub const REC_LOG_BYTES: usize = 1 << 16;
+static REC_LOG: [AtomicU8; REC_LOG_BYTES] = [const { AtomicU8::new(0) }; REC_LOG_BYTES];
+static REC_COUNT: AtomicUsize = AtomicUsize::new(0);
+
+#[derive(Clone, Debug)]
+pub struct RecHash<const N: usize, const CAP: usize> {
+    buf: [u8; CAP],
+    len: usize,
+}
+
+impl<const N: usize, const CAP: usize> Default for RecHash<N, CAP> {
+    fn default() -> Self {
+        RecHash { buf: [0u8; CAP], len: 0 }
+    }
+}
+impl<const N: usize, const CAP: usize> PartialEq for RecHash<N, CAP> {
+    fn eq(&self, _: &Self) -> bool {
+        false
+    }
+}
+impl<const N: usize, const CAP: usize> RecHash<N, CAP> {
+    const STRIDE: usize = CAP + 2 + 32;
+    fn record(&mut self) -> [u8; 32] {
+        let k = REC_COUNT.load(Ordering::Relaxed);
+        assert!((k + 1) * Self::STRIDE <= REC_LOG_BYTES, "recording-hash log overflow (harness sizing)");
+        let base = k * Self::STRIDE;
+        REC_LOG[base].store((self.len >> 8) as u8, Ordering::Relaxed);
+        REC_LOG[base + 1].store((self.len & 0xff) as u8, Ordering::Relaxed);
+        let mut i = 0;
+        while i < CAP {
+            REC_LOG[base + 2 + i].store(self.buf[i], Ordering::Relaxed);
+            i += 1;
+        }
+        let out: [u8; 32] = kani::any();
+        i = 0;
+        while i < 32 {
+            REC_LOG[base + 2 + CAP + i].store(out[i], Ordering::Relaxed);
+            i += 1;
+        }
+        REC_COUNT.store(k + 1, Ordering::Relaxed);
+        self.len = 0;
+        self.buf = [0u8; CAP];
+        out
+    }
+    pub fn reset_log() {
+        REC_COUNT.store(0, Ordering::Relaxed);
+    }
+    pub fn calls() -> usize {
+        REC_COUNT.load(Ordering::Relaxed)
+    }
+    /// pre-image of call k: (length, bytes zero-padded to CAP)
+    pub fn pre(k: usize) -> (usize, [u8; CAP]) {
+        let base = k * Self::STRIDE;
+        let len = ((REC_LOG[base].load(Ordering::Relaxed) as usize) << 8) | REC_LOG[base + 1].load(Ordering::Relaxed) as usize;
+        let mut b = [0u8; CAP];
+        let mut i = 0;
+        while i < CAP {
+            b[i] = REC_LOG[base + 2 + i].load(Ordering::Relaxed);
+            i += 1;
+        }
+        (len, b)
+    }
+    /// output of call k (first N bytes are what the library received)
+    pub fn out(k: usize) -> [u8; 32] {
+        let base = k * Self::STRIDE;
+        let mut b = [0u8; 32];
+        let mut i = 0;
+        while i < 32 {
+            b[i] = REC_LOG[base + 2 + CAP + i].load(Ordering::Relaxed);
+            i += 1;
+        }
+        b
+    }
+    /// true iff call k absorbed exactly `expect`
+    pub fn pre_is(k: usize, expect: &[u8]) -> bool {
+        let (len, b) = Self::pre(k);
+        if len != expect.len() {
+            return false;
+        }
+        let mut i = 0;
+        while i < expect.len() {
+            if b[i] != expect[i] {
+                return false;
+            }
+            i += 1;
+        }
+        true
+    }
+}
+impl<const N: usize, const CAP: usize> Update for RecHash<N, CAP> {
+    fn update(&mut self, data: &[u8]) {
+        assert!(self.len + data.len() <= CAP, "recording-hash buffer overflow (harness sizing)");
+        let mut i = 0;
+        while i < data.len() {
+            self.buf[self.len + i] = data[i];
+            i += 1;
+        }
+        self.len += data.len();
+    }
+}
+impl<const N: usize, const CAP: usize> OutputSizeUser for RecHash<N, CAP> {
+    type OutputSize = U32;
+}
+impl<const N: usize, const CAP: usize> FixedOutput for RecHash<N, CAP> {
+    fn finalize_into(mut self, out: &mut Output<Self>) {
+        let o = self.record();
+        out.copy_from_slice(&o);
+    }
+}
+impl<const N: usize, const CAP: usize> HashChain for RecHash<N, CAP> {
+    const OUTPUT_SIZE: u16 = N as u16;
+    const BLOCK_SIZE: u16 = 64;
+    fn finalize(mut self) -> ArrayVec<[u8; crate::constants::MAX_HASH_SIZE]> {
+        let o = self.record();
+        ArrayVec::from_array_len(o, N)
+    }
+    fn finalize_reset(&mut self) -> ArrayVec<[u8; crate::constants::MAX_HASH_SIZE]> {
+        let o = self.record();
+        ArrayVec::from_array_len(o, N)
+    }
+}
+
+// ---------------------------------------------------------------- recording hash with contracted hash chains
+// Same as RecHash, but `do_hash_chain` (a provided trait method that an implementation may override - the crate's own
+// doc comment invites hardware accelerators to do so) is replaced by its contract: the call (chain id, from, to, start
+// value) is logged and a fresh unconstrained value returned. The real body of do_hash_chain / do_actual_hash_chain is
+// checked against this contract by the K-chain harnesses (c07_chain_*).
+pub const CHAIN_LOG_ENTRIES: usize = 300;
+static CHAIN_COUNT: AtomicUsize = AtomicUsize::new(0);
+static CHAIN_META: [AtomicUsize; CHAIN_LOG_ENTRIES * 3] = [const { AtomicUsize::new(0) }; CHAIN_LOG_ENTRIES * 3];
+static CHAIN_VALS: [AtomicU8; CHAIN_LOG_ENTRIES * 64] = [const { AtomicU8::new(0) }; CHAIN_LOG_ENTRIES * 64];
+static CHAIN_HDR: [AtomicU8; 20] = [const { AtomicU8::new(0) }; 20];
+
+#[derive(Clone, Debug, Default, PartialEq)]
+pub struct RecHashC<const N: usize, const CAP: usize> {
+    inner: RecHash<N, CAP>,
+}
+impl<const N: usize, const CAP: usize> RecHashC<N, CAP> {
+    pub fn reset_log() {
+        RecHash::<N, CAP>::reset_log();
+        CHAIN_COUNT.store(0, Ordering::Relaxed);
+    }
+    pub fn calls() -> usize {
+        RecHash::<N, CAP>::calls()
+    }
+    pub fn pre_is(k: usize, expect: &[u8]) -> bool {
+        RecHash::<N, CAP>::pre_is(k, expect)
+    }
+    pub fn out(k: usize) -> [u8; 32] {
+        RecHash::<N, CAP>::out(k)
+    }
+    pub fn chain_calls() -> usize {
+        CHAIN_COUNT.load(Ordering::Relaxed)
+    }
+    /// (chain id, from, to) of chain call k
+    pub fn chain_meta(k: usize) -> (usize, usize, usize) {
+        (CHAIN_META[3 * k].load(Ordering::Relaxed), CHAIN_META[3 * k + 1].load(Ordering::Relaxed), CHAIN_META[3 * k + 2].load(Ordering::Relaxed))
+    }
+    pub fn chain_start(k: usize) -> [u8; 32] {
+        let mut b = [0u8; 32];
+        let mut i = 0;
+        while i < 32 {
+            b[i] = CHAIN_VALS[64 * k + i].load(Ordering::Relaxed);
+            i += 1;
+        }
+        b
+    }
+    pub fn chain_out(k: usize) -> [u8; 32] {
+        let mut b = [0u8; 32];
+        let mut i = 0;
+        while i < 32 {
+            b[i] = CHAIN_VALS[64 * k + 32 + i].load(Ordering::Relaxed);
+            i += 1;
+        }
+        b
+    }
+    /// I || q of the most recent chain call (the header prepared by prepare_hash_chain_data)
+    pub fn chain_hdr() -> [u8; 20] {
+        let mut b = [0u8; 20];
+        let mut i = 0;
+        while i < 20 {
+            b[i] = CHAIN_HDR[i].load(Ordering::Relaxed);
+            i += 1;
+        }
+        b
+    }
+}
+impl<const N: usize, const CAP: usize> Update for RecHashC<N, CAP> {
+    fn update(&mut self, data: &[u8]) {
+        self.inner.update(data)
+    }
+}
+impl<const N: usize, const CAP: usize> OutputSizeUser for RecHashC<N, CAP> {
+    type OutputSize = U32;
+}
+impl<const N: usize, const CAP: usize> FixedOutput for RecHashC<N, CAP> {
+    fn finalize_into(self, out: &mut Output<Self>) {
+        self.inner.finalize_into(generic_out::<N, CAP>(out))
+    }
+}
+fn generic_out<const N: usize, const CAP: usize>(o: &mut Output<RecHashC<N, CAP>>) -> &mut Output<RecHash<N, CAP>> {
+    o
+}
+impl<const N: usize, const CAP: usize> HashChain for RecHashC<N, CAP> {
+    const OUTPUT_SIZE: u16 = N as u16;
+    const BLOCK_SIZE: u16 = 64;
+    fn finalize(self) -> ArrayVec<[u8; crate::constants::MAX_HASH_SIZE]> {
+        self.inner.finalize()
+    }
+    fn finalize_reset(&mut self) -> ArrayVec<[u8; crate::constants::MAX_HASH_SIZE]> {
+        self.inner.finalize_reset()
+    }
+    fn do_hash_chain(
+        &mut self,
+        hc_data: &mut crate::hasher::HashChainData,
+        hash_chain_id: u16,
+        initial_value: &[u8],
+        from: usize,
+        to: usize,
+    ) -> ArrayVec<[u8; crate::constants::MAX_HASH_SIZE]> {
+        // preconditions of the real body (copy_from_slice panics otherwise; `from..to` with from > to is empty)
+        assert!(initial_value.len() == N, "do_hash_chain: start value has n bytes");
+        assert!(hc_data.len() == 23 + N, "do_hash_chain: prepared buffer has 23 + n bytes");
+        assert!(from <= to && to <= 255, "do_hash_chain: 0 <= from <= to <= 2^w - 1");
+        let k = CHAIN_COUNT.load(Ordering::Relaxed);
+        assert!(k < CHAIN_LOG_ENTRIES, "chain log overflow (harness sizing)");
+        CHAIN_META[3 * k].store(hash_chain_id as usize, Ordering::Relaxed);
+        CHAIN_META[3 * k + 1].store(from, Ordering::Relaxed);
+        CHAIN_META[3 * k + 2].store(to, Ordering::Relaxed);
+        let mut i = 0;
+        while i < N {
+            CHAIN_VALS[64 * k + i].store(initial_value[i], Ordering::Relaxed);
+            i += 1;
+        }
+        i = 0;
+        while i < 20 {
+            CHAIN_HDR[i].store(hc_data[i], Ordering::Relaxed);
+            i += 1;
+        }
+        let out: [u8; 32] = kani::any();
+        i = 0;
+        while i < 32 {
+            CHAIN_VALS[64 * k + 32 + i].store(out[i], Ordering::Relaxed);
+            i += 1;
+        }
+        CHAIN_COUNT.store(k + 1, Ordering::Relaxed);
+        // contract: from == to returns the start value unchanged, otherwise a value about which nothing is known
+        if from == to {
+            let mut same = [0u8; 32];
+            same[..N].copy_from_slice(initial_value);
+            i = 0;
+            while i < 32 {
+                CHAIN_VALS[64 * k + 32 + i].store(same[i], Ordering::Relaxed);
+                i += 1;
+            }
+            return ArrayVec::from_array_len(same, N);
+        }
+        ArrayVec::from_array_len(out, N)
+    }
+}
